@@ -72,7 +72,7 @@ impl Prop for C01 {
     }
     fn components(&self) -> Value {
         json!({"real": ["sentinel-core: EntryBuilder, slot chain, flow rule manager/slot/RejectChecker/StandaloneStatSlot, stat (LeapArray, SlidingWindowMetric)"],
-               "stub": ["clock (virtual, hook H1)", "getrandom (seeded)", "logger (none)", "background threads (never started)"]})
+               "stub": ["clock (virtual, hook H1)", "getrandom (seeded)", "logger (a sink that formats every record of the library and discards it)", "background threads (never started)"]})
     }
 
     fn generate(&self, rng: &mut Rng, slot_ns: u64, _avoid: bool) -> Value {
